@@ -25,7 +25,10 @@ RULE = ("element sets from the structured TLE generator (regimes: operational LE
         "representation (datetime64[ns|us|ms|s], naive, UTC-aware, offset-aware), measured from the epoch as PRINTED (civil year by "
         "the TLE convention 57-99 -> 19xx, 00-56 -> 20xx, decoded by the harness, not by pyorbital); every named intermediate of initialisation and propagation is compared "
         "(model driver vs pyorbital) at 1e-11 relative; the oracle compares pyorbital with the published model "
-        "(Spec.Str3 on Float) at 1 mm / 1 um/s where a/a0 in [1/2, 2]; distinct = (tle text, minutes)")
+        "(Spec.Str3 on Float) at 1 mm / 1 um/s where a/a0 in [1/2, 2]; the `normalize` flag in every truthy / falsy spelling "
+        "(True/False, numpy booleans as returned by comparisons, 0/1 as Python and numpy integers, 0-d boolean array, None, "
+        "omitted) given by keyword and by position, for scalar and array times: truthy -> state / (6378.135, 106.30225), falsy -> "
+        "the km state; constructor arguments by keyword / position / numpy strings; distinct = (tle text, minutes)")
 ASSUMPTIONS = ["IEEE-754 rounding and libm/numpy ulp differences are not modelled by the real-number theorems; the 1 mm, "
                "1 um/s and 5 mm tolerances are measured on the sampled inputs, not proved",
                "Spec.Str3 is transcribed from Spacetrack Report #3 / AIAA-2006-6753 (text not available offline) and "
@@ -343,6 +346,14 @@ def oracle(ctx):
     # the answer is a function of (elements, instant): array-valued times, re-used and updated in place between queries
     for (l1, l2, o, ts, ep, offs) in recs[:ctx.size(25, 400)]:
         ctx.bump("sequence_probe", seq_probe(ctx, l1, l2, [ts[1], ts[1] + 1.5, ts[1] + 7.0], ctx.rng.choice([90.0, 600.0, 5.0]), o))
+    # the normalised output is the same state / (6378.135 km, 106.30225 km/s) for every truthy spelling of the flag, the km
+    # state for every falsy one; keyword / positional arguments; scalar and array times; constructor spellings
+    for j, (l1, l2, o, ts, ep, offs) in enumerate(recs[:ctx.size(40, 600)]):
+        ns, tkind = offs[ctx.rng.randrange(len(offs))]
+        ctor = CTOR_FORMS[(j // 2) % len(CTOR_FORMS)]
+        for array_n in (0, ctx.rng.choice([1, 2, 3, 5])):
+            r_ = flag_probe(ctx, l1, l2, ns, tkind, array_n, ctor)
+            ctx.bump("flag_probe", "%s/%s/%s" % (r_, "array" if array_n else "scalar", ctor))
     # array-valued times spanning whole revolutions on eccentric orbits: each element conforms on its own
     if drv:
         done = 0
@@ -502,6 +513,116 @@ def seq_probe(ctx, l1, l2, mins, step_s, o=None):
     return "ok"
 
 
+_OMITTED = object()
+# Every spelling of the `normalize` flag whose truth value Python defines unambiguously (bool(x) is what `if x:` tests):
+# the two singletons, numpy's booleans (what any numpy comparison / np.all / np.any returns), Python and numpy integers
+# 0/1, a 0-d boolean array, None, and the flag left out (documented default: normalised).  (name, factory, truthy)
+FLAG_SPELLINGS = [
+    ("True", lambda: True, True), ("False", lambda: False, False),
+    ("np.True_", lambda: np.True_, True), ("np.False_", lambda: np.False_, False),
+    ("np.bool_(True)", lambda: np.bool_(True), True), ("np.bool_(False)", lambda: np.bool_(False), False),
+    ("numpy comparison, true", lambda: np.float64(850.0) > 0, True), ("numpy comparison, false", lambda: np.float64(850.0) < 0, False),
+    ("np.all(...) true", lambda: np.all(np.array([1.0, 2.0]) > 0), True), ("np.any(...) false", lambda: np.any(np.array([1.0, 2.0]) < 0), False),
+    ("1", lambda: 1, True), ("0", lambda: 0, False),
+    ("np.int64(1)", lambda: np.int64(1), True), ("np.int64(0)", lambda: np.int64(0), False),
+    ("np.int32(1)", lambda: np.int32(1), True), ("np.uint8(1)", lambda: np.uint8(1), True), ("np.uint8(0)", lambda: np.uint8(0), False),
+    ("np.array(True) 0-d", lambda: np.array(True), True), ("np.array(False) 0-d", lambda: np.array(False), False),
+    ("None", lambda: None, False),
+    ("omitted", lambda: _OMITTED, True),
+]
+CALL_FORMS = ["keyword", "positional", "all_keyword"]
+CTOR_FORMS = ["keyword", "positional", "all_keyword", "np_str"]
+
+
+def construct(l1, l2, form="keyword"):
+    """Orbital for the two lines, the constructor's arguments spelled in one of the ways its signature
+    (satellite, tle_file=None, line1=None, line2=None) allows; np_str: numpy strings (a str subclass) for Python strings."""
+    from pyorbital import orbital
+    if form == "positional":
+        return orbital.Orbital("x", None, l1, l2)
+    if form == "all_keyword":
+        return orbital.Orbital(line2=l2, line1=l1, tle_file=None, satellite="x")
+    if form == "np_str":
+        return orbital.Orbital(np.str_("x"), line1=np.str_(l1), line2=np.str_(l2))
+    return orbital.Orbital("x", line1=l1, line2=l2)
+
+
+def call_get_position(o, tt, flag, form):
+    """get_position(utc_time, normalize=True) with its arguments spelled as keyword / positional / all by keyword."""
+    if flag is _OMITTED:
+        return o.get_position(utc_time=tt) if form == "all_keyword" else o.get_position(tt)
+    if form == "positional":
+        return o.get_position(tt, flag)
+    if form == "all_keyword":
+        return o.get_position(normalize=flag, utc_time=tt)
+    return o.get_position(tt, normalize=flag)
+
+
+def flag_probe(ctx, l1, l2, offset_ns, tkind, array_n, ctor="keyword", only=None):
+    """'The normalised output is the same state divided by 6378.135 km and 106.30225 km/s': the state the object returns for
+    `normalize=False` is the km, km/s state (the one the main oracle judges against the published model); every TRUTHY
+    spelling of the flag (and the flag left out) must return that state divided by (6378.135, 106.30225), every FALSY spelling
+    that state itself -- to the 1e-13 relative agreement the normalisation clause of the main oracle uses -- whether the flag
+    is given by keyword or by position, for a scalar time and for an array of `array_n` instants.  The constructor's arguments
+    are spelled per `ctor`; the answer is a function of (elements, instant), so it must be the keyword-constructed object's
+    (1 mm / 1 um/s).  only = (flag name, call form) re-evaluates one recorded combination."""
+    try:
+        o = construct(l1, l2, ctor)
+        ref = o if ctor == "keyword" else construct(l1, l2, "keyword")
+    except Exception:  # noqa  refusals are C13's subject
+        return "refused"
+    ep = epoch_of(ref, l1)
+    if array_n:
+        us = [offset_ns // 1000 + k * 97 * 10 ** 6 for k in range(array_n)]
+        tt = ep + np.array(us, dtype="int64").astype("timedelta64[us]")
+        tkind = "dt64us"
+    else:
+        tt = time_of(ep, offset_ns, tkind)
+    base = {"line1": l1, "line2": l2, "offset_ns": offset_ns, "time_kind": tkind, "array_n": array_n, "ctor": ctor}
+    with warnings.catch_warnings():
+        warnings.simplefilter("ignore")
+        try:
+            rp, rv = [np.array(x, dtype=np.float64, copy=True) for x in o.get_position(tt, normalize=False)]
+            kp, kv = [np.array(x, dtype=np.float64, copy=True) for x in ref.get_position(tt, normalize=False)]
+        except Exception:  # noqa  decay / refusal: C13
+            return "refused"
+        if not (np.all(np.isfinite(rp)) and np.all(np.isfinite(rv))):
+            return "nonfinite"
+        if ctor != "keyword":
+            ctx.count("eval_oracle_ctor_spelling")
+            same = rp.shape == kp.shape and rv.shape == kv.shape
+            dp = float(np.max(np.linalg.norm(rp - kp, axis=0))) if same else float("inf")
+            dv = float(np.max(np.linalg.norm(rv - kv, axis=0))) if same else float("inf")
+            if not (dp <= 1e-6 and dv <= 1e-9):
+                ctx.violation("constructor_spelling", dict(base, flag="False", call="keyword"),
+                              {"state": [rp.tolist(), rv.tolist()], "diff_km": dp, "diff_kms": dv},
+                              "the state of the same element set constructed with keyword arguments: %r" % [kp.tolist(), kv.tolist()],
+                              site="Orbital.__init__")
+                return "violated"
+        for (name, mk, truthy) in FLAG_SPELLINGS:
+            for form in CALL_FORMS:
+                if only is not None and (name, form) != tuple(only):
+                    continue
+                ctx.count("eval_oracle_flag")
+                try:
+                    gp, gv = call_get_position(o, tt, mk(), form)
+                except Exception:  # noqa  a spelling the library declines is not a wrong answer
+                    ctx.count("oracle_flag_declined")
+                    continue
+                gp, gv = np.asarray(gp, dtype=np.float64), np.asarray(gv, dtype=np.float64)
+                sp, sv = (6378.135, 106.30225) if truthy else (1.0, 1.0)
+                ok = gp.shape == rp.shape and gv.shape == rv.shape and \
+                    np.allclose(gp * sp, rp, rtol=1e-13, atol=0) and np.allclose(gv * sv, rv, rtol=1e-13, atol=0)
+                if not ok:
+                    ctx.violation("normalisation_flag", dict(base, flag=name, call=form),
+                                  {"returned": [gp.tolist(), gv.tolist()], "state_km_kms": [rp.tolist(), rv.tolist()]},
+                                  ("the km, km/s state divided by (6378.135, 106.30225): the flag is true" if truthy else
+                                   "the km, km/s state itself: the flag is false") + " (normalize = %s, given %s)" % (name, form),
+                                  site="Orbital.get_position")
+                    return "violated"
+    return "ok"
+
+
 def match_known(entry, v):
     m = entry.get("match", {})
     if m.get("kind") != v["kind"]:
@@ -517,6 +638,11 @@ def replay(ctx, case):
     if "array_start_min" in inp:
         r = array_probe(ctx, lib.Driver(), inp["line1"], inp["line2"], inp["array_start_min"], None, inp["n"], inp["step_min"])
         print("array probe:", r)
+        return 1 if r == "violated" else 0
+    if "flag" in inp:
+        r = flag_probe(ctx, inp["line1"], inp["line2"], inp["offset_ns"], inp["time_kind"], inp["array_n"], inp.get("ctor", "keyword"),
+                       only=(inp["flag"], inp["call"]))
+        print("normalize-flag probe (normalize = %s, given %s, constructor %s):" % (inp["flag"], inp["call"], inp.get("ctor")), r)
         return 1 if r == "violated" else 0
     if "minutes_list" in inp:
         r = seq_probe(ctx, inp["line1"], inp["line2"], inp["minutes_list"], inp["step_s"])
